@@ -89,6 +89,7 @@ void bn_mxp_sim_few(bn_t c, const bn_t *a, const bn_t *b, const bn_t m,
 	}
 
 	if (n == 0) {
+		bn_set_dig(c, 1);
 		return;
 	}
 
